@@ -6,7 +6,7 @@
    raw:val|ty{|@rate | |#t1,t2.. | |other}*, [render_event title text attrs] the line
    _e{|title|,|text|}:title|text{|d:.. |h:.. |k:.. |p:.. |s:.. |t:.. |#tags |other}*.
    Side conditions [wf_*] only say that a piece does not contain the separator that ends it. *)
-From GS Require Import Base.Bytes Model.Lexer Model.LexGrammar.
+From GS Require Import Base.Bytes Model.Lexer Model.LexGrammar Model.LexerLegacyUint.
 From GS Require Import Proofs.Lexer Proofs.LexerGrammar Proofs.LexerGrammarEvent Proofs.LexerGrammarWf.
 From GS Require Import Proofs.LexerGrammarExact Proofs.LexerGrammarExactEvent.
 Local Open Scope N_scope.
@@ -144,8 +144,8 @@ Print Assumptions C02_normalise_spec.
    the slack the lexer has: an ignored field is recognised by its first byte only, so it may
    be EMPTY, in which case that first byte is the next '|' and the field after it is skipped
    ([AOther (c_pipe :: g)]), or it is the empty field after a trailing '|' ([AOther []], last
-   position only); and a date numeral is accumulated in uint64 with lexUint's overflow test
-   ([uint_acc]). *)
+   position only).  Nothing else: numerals denote their decimal value (lengths < 2^32, date < 2^63)
+   and the results are [expected_metric] / [expected_event]. *)
 
 (* Every accepted metric line without NUL is a rendering of the grammar -- the derivation is
    the one [parse_to_spec] computes -- and the record returned is the one the grammar promises
@@ -168,7 +168,7 @@ Theorem C02_accepted_event_only_grammar :
       parse_to_spec l = Some (SEvent dt dx title text attrs) /\
       wf_event_header dt dx title text /\ wf_eattrs' attrs /\
       l = render_event' dt dx title text attrs /\
-      e = expected_event' title text attrs.
+      e = expected_event title text attrs.
 Proof. exact accepted_event_only_grammar. Qed.
 Print Assumptions C02_accepted_event_only_grammar.
 
@@ -180,15 +180,14 @@ Theorem C02_language :
          l = render_metric' raw val ty attrs /\ expected_metric pf ns raw val ty attrs = OMetric m) /\
     (forall e, lex pf ns l = OEvent e <->
        exists dt dx title text attrs, wf_event_header dt dx title text /\ wf_eattrs' attrs /\
-         l = render_event' dt dx title text attrs /\ e = expected_event' title text attrs).
+         l = render_event' dt dx title text attrs /\ e = expected_event title text attrs).
 Proof. exact language. Qed.
 Print Assumptions C02_language.
 
 (* The documented grammar is a sub-grammar of the exact one: same rendering, same results. *)
 Theorem C02_documented_subgrammar :
   (forall attrs, Forall wf_attr attrs -> wf_attrs' attrs) /\
-  (forall attrs, Forall wf_eattr attrs ->
-     wf_eattrs' attrs /\ forall e, fold_left apply_eattr' attrs e = fold_left apply_eattr attrs e) /\
+  (forall attrs, Forall wf_eattr attrs -> wf_eattrs' attrs) /\
   (forall raw val ty attrs, render_metric' raw val ty attrs = render_metric raw val ty attrs) /\
   (forall dt dx title text attrs, render_event' dt dx title text attrs = render_event_digits dt dx title text attrs).
 Proof. exact documented_subgrammar. Qed.
@@ -205,8 +204,8 @@ Proof. exact parse_to_spec_correct. Qed.
 Print Assumptions C02_parse_to_spec.
 
 (* What "exactly" means for the real code: an empty field swallows the next one (metrics and
-   events); a trailing '|' is harmless; the two event lengths never wrap; a date numeral can
-   wrap modulo 2^64 undetected (d:21000000000000000000 is the date 2553255926290448384). *)
+   events); a trailing '|' is harmless; a numeral is accepted exactly when its decimal value fits
+   in 64 bits and denotes that value ([uint_acc] is lexUint's accumulation with its test). *)
 Theorem C02_quirks :
   forall (pf : str -> pfres) (ns : str),
   (forall raw val ty g attrs, wf_raw_name raw -> wf_value val -> ~ In c_pipe g -> wf_attrs' attrs ->
@@ -217,8 +216,23 @@ Theorem C02_quirks :
   (forall dt dx title text g attrs, wf_event_header dt dx title text -> ~ In c_pipe g -> wf_eattrs' attrs ->
      lex pf ns (render_event' dt dx title text (EAOther (c_pipe :: g) :: attrs)) =
      lex pf ns (render_event' dt dx title text attrs)) /\
-  (forall ds v, Forall (fun b => is_digit b = true) ds -> uint_acc 0 ds = Some v -> v <= max_uint32 ->
-     v = digit_value ds) /\
-  (exists ds, two64 <= digit_value ds /\ wf_eattr' true (EADate ds) /\ date_value ds = digit_value ds - two64).
+  (forall ds v, Forall (fun b => is_digit b = true) ds ->
+     (uint_acc 0 ds = Some v <-> v = digit_value ds /\ digit_value ds <= max_uint64)).
 Proof. exact quirks. Qed.
 Print Assumptions C02_quirks.
+
+(* Defect D11, found through an earlier form of C02_quirks ("a date numeral can wrap") and repaired
+   in /repo 162b292: the lexer BEFORE the repair (Model/LexerLegacyUint.v: multiply in uint64, then
+   test n < value) accepts  _e{1,1}:a|b|d:21000000000000000000  (2.1e19 > 2^64) with the date
+   2553255926290448384 = 2.1e19 - 2^64; the current lexer rejects that line. *)
+Theorem C02_legacy_refuted_uint_wrap :
+  forall (pf : str -> pfres) (ns : str),
+    lex_uint_wrap_legacy pf ns
+      [95;101;123;49;44;49;125;58;97;124;98;124;100;58;50;49;48;48;48;48;48;48;48;48;48;48;48;48;48;48;48;48;48;48] =
+      OEvent {| e_title := [97]; e_text := [98]; e_date := 2553255926290448384; e_host := []; e_key := [];
+                e_pri := 0; e_stype := []; e_alert := 0; e_tags := [] |} /\
+    lex pf ns
+      [95;101;123;49;44;49;125;58;97;124;98;124;100;58;50;49;48;48;48;48;48;48;48;48;48;48;48;48;48;48;48;48;48;48] =
+      OReject EOverflow.
+Proof. exact legacy_refuted_uint_wrap. Qed.
+Print Assumptions C02_legacy_refuted_uint_wrap.
